@@ -32,26 +32,25 @@ pub enum Node {
     Number(i64),
 }
 
-fn gcd(expr1: i64, expr2: i64) -> Option<i64> {
+fn gcd(expr1: u64, expr2: u64) -> u64 {
     let mut a = expr1;
     let mut b = expr2;
     while b != 0 {
         #[cfg(feature = "verif_hooks")]
         crate::verif_hooks::tick_loop();
-        let remainder = a.wrapping_rem(b);
+        let remainder = a % b;
         a = b;
         b = remainder;
     }
-    a.checked_abs()
+    a
 }
 
 fn lcm(expr1: i64, expr2: i64) -> Option<i64> {
     if expr1 == 0 || expr2 == 0 {
         return Some(0);
     }
-    (expr1 / gcd(expr1, expr2)?)
-        .checked_mul(expr2)?
-        .checked_abs()
+    let (a, b) = (expr1.unsigned_abs(), expr2.unsigned_abs());
+    i64::try_from((a / gcd(a, b)).checked_mul(b)?).ok()
 }
 
 pub fn eval(expr: Node) -> Result<i64, Box<dyn error::Error>> {
@@ -158,12 +157,12 @@ pub fn eval(expr: Node) -> Result<i64, Box<dyn error::Error>> {
         Gcd(args) => {
             // Ok(gcd(eval(*expr1)?, eval(*expr2)?))
             // gcd(0, x) = |x|, so folding from 0 also normalises the sign of a single argument
-            let mut result: i64 = 0;
+            let mut result: u64 = 0;
             for arg in <Vec<Node> as Clone>::clone(&args).into_iter() {
                 let right_art = eval(arg)?;
-                result = gcd(result, right_art).ok_or("Integer overflow")?;
+                result = gcd(result, right_art.unsigned_abs());
             }
-            Ok(result)
+            Ok(i64::try_from(result).map_err(|_| "Integer overflow")?)
         }
         Lcm(args) => {
             // lcm(1, x) = |x|
